@@ -39,7 +39,10 @@ func TestMain(m *testing.M) {
 			"allocation guard is live, scratch cwd); oracle: panicked is false unless the message is one of the two documented guards ('max depth', 'would exceed memory'); a dying process " +
 			"is re-run on its in-flight case. Enumerated completely: every infix operator x every ordered pair of a 30-value operand pool (all kinds, boundary integers, NaN, empty/huge containers), " +
 			"every prefix/postfix operator and builtin x every value, index/slice with all pairs of boundary bounds on every indexable kind, assignment/del/++ on every kind of left-hand side, " +
-			"every registered extension with 0..3 arguments from the pool (1 and 2 arguments exhaustively). Plus rapid: wild grammar programs over the predefined names, and token-level mutations of the shipped examples. " +
+			"every registered extension with 0..3 arguments from the pool (1 and 2 arguments exhaustively). " +
+			"Every registered extension and argument-taking builtin is also called from inside a function, a lambda and a nested function with NAMES as arguments, which reach the callee as reference / register objects " +
+			"instead of values: every predefined global (1 argument, and every ordered pair for 2), parameters and locals of the enclosing function holding every pool value, integer parameters and loop variables, " +
+			"three names; plus a rapid family drawing callee, 1..4 arguments (names or literals) and the way of calling. Plus rapid: wild grammar programs over the predefined names, and token-level mutations of the shipped examples. " +
 			"Non-trivial: the input parses and at least one operator/builtin/extension receives an operand outside its documented type or a boundary value; enumeration distinct by construction, generated programs by text.",
 		Assumptions: []string{
 			"not called: read (blocks on stdin), exec/run (not registered in the restricted configuration used), sleep with more than 10 ms",
